@@ -251,6 +251,8 @@ def kept_patches(prop):
       except ValueError:
         continue
       if meta.get('property') == prop:
+        if expect == 'fire' and prop not in (meta.get('caught_by') or []):
+          continue      # recorded by tools/seed_matrix.py as not decided by this check (DESIGN.md 10.8): documented, not a regression guard
         out.append(PatchVariant('%s %s (%s/%s)' % ('seeded change' if expect == 'fire' else 'harmless refactoring', sid, kind, sid), pp, expect))
   return out
 
@@ -294,7 +296,7 @@ def run_selftest(prop, mod, baseline_keys, seed=0, jobs=None):
         results[idx] = (status, keys, err)
   failed = []
   rows = []
-  killed = silent_ok = inappl = 0
+  killed = silent_ok = inappl = undecided = 0
   for i, m in enumerate(muts):
     status, keys, err = results[i]
     new = [k for k in keys if tuple(k) not in baseline_keys]
@@ -319,6 +321,10 @@ def run_selftest(prop, mod, baseline_keys, seed=0, jobs=None):
       if status == 'ran' and not new:
         silent_ok += 1
         row['result'] = 'silent'
+      elif status == 'analysis-error' and isinstance(m, PatchVariant):
+        # a substantial refactoring the shape rules no longer recognise: "cannot decide" is not an alarm
+        undecided += 1
+        row['result'] = 'undecided (exit 2, no alarm): %s' % (err or '')[:200]
       else:
         row['result'] = 'FALSE-ALARM %s %s' % (status, err or [k[1:] for k in new][:3])
         failed.append('equivalent variant %r raised an alarm for %s: %s' % (m.name, prop, row['result']))
@@ -329,6 +335,7 @@ def run_selftest(prop, mod, baseline_keys, seed=0, jobs=None):
       'breaking_total': sum(1 for m in muts if m.expect == 'fire'),
       'equivalent_silent': silent_ok,
       'equivalent_total': sum(1 for m in muts if m.expect == 'silent'),
+      'refactorings_undecided': undecided,
       'inapplicable': inappl,
       'matrix': rows,
   }
